@@ -7,9 +7,9 @@ using namespace fw;
 using namespace lib;
 
 enum { OP_CREATE, OP_CREATE_FAIL, OP_DESTROY, OP_DESTROY_DEAD, OP_USE, OP_PROBE_DEAD, OP_PRESET, OP_DECODE_INSUFF,
-       OP_DECODE_BADHDR, OP_BADARGS, OP_META, OP_ENCODE_THREAD, OP_RECON, OP_XDESTROY, OP_SIZE_LIE, OP_MT_FIRST, OP_ZPAR, OP_NOPS };
+       OP_DECODE_BADHDR, OP_BADARGS, OP_META, OP_ENCODE_THREAD, OP_RECON, OP_XDESTROY, OP_SIZE_LIE, OP_MT_FIRST, OP_ZPAR, OP_AVAIL, OP_LONG_LEN, OP_NOPS };
 static const char *OPN[] = {"create", "create_fail", "destroy", "destroy_dead", "use", "probe_dead", "preset", "decode_insuff",
-                            "decode_badhdr", "badargs", "meta", "encode_thread", "recon", "xdestroy", "size_lie", "mt_first", "zero_parity"};
+                            "decode_badhdr", "badargs", "meta", "encode_thread", "recon", "xdestroy", "size_lie", "mt_first", "zero_parity", "backend_available", "long_fragment_len"};
 enum { MODE_C14 = 14, MODE_C15 = 15, MODE_C16 = 16 };
 static const int NSLOTS = 4;
 static bool g_explicit_lsan = true;     // the libFuzzer target switches to libFuzzer's own leak detection
@@ -396,6 +396,47 @@ static Result run_history(const Case &c, int mode) {
             for (auto &s : w.slot) if (s.live && r.ok) { Result rr; if (!round_trip(s, (int)(b % 3), rr, mode == MODE_C15)) fail_at(step, "after the life of a zero-parity instance: " + rr.msg); if (s.g.backend == ref::B_RS) w.same_backend_overlap = true; }
             break;
         }
+        case OP_AVAIL: {
+            // the availability query, asked while instances of that back end live: it answers, and it leaves them alone
+            int ids[] = {ref::B_NULL, ref::B_XOR, ref::B_RS, ref::B_ISA_V, ref::B_ISA_C, 1, 2, 5, 8};
+            int id = (b & 1) && w.slot[a % NSLOTS].live ? w.slot[a % NSLOTS].g.backend : ids[a % 9];
+            int rc = liberasurecode_backend_available((unsigned)id);
+            bool installed = id == ref::B_NULL || id == ref::B_XOR || id == ref::B_RS || (ref::is_isa(id) && isa_available());
+            if (installed && rc <= 0) fail_at(step, "backend_available(" + std::to_string(id) + ") = " + std::to_string(rc) + " for an installed back end");
+            if (!installed && rc > 0) fail_at(step, "backend_available(" + std::to_string(id) + ") = " + std::to_string(rc) + " for a back end whose library is not installed");
+            for (auto &s : w.slot) if (s.live && s.g.backend == id && r.ok) { Result rr; if (!round_trip(s, (int)(b % 3), rr, mode == MODE_C15)) fail_at(step, "after backend_available(" + std::to_string(id) + "): " + rr.msg); }
+            break;
+        }
+        case OP_LONG_LEN: {
+            // fragments kept in fixed-size zero-padded slots: fragment_len is the slot size, larger than the fragments are.
+            // Only what is forced is demanded: rc 0 => the right bytes; any outcome => inputs untouched, nothing leaked
+            SlotState &s = w.slot[a % NSLOTS];
+            if (!s.live || !s.has_stripe || s.g.backend == ref::B_NULL) break;
+            int n = s.g.n(), t = ref::tolerance(s.g);
+            if (t < 1) break;
+            uint64_t slot_len = s.s.fraglen + 16 * (1 + (b >> 4) % 8);
+            int lost = (int)(b % n);
+            std::vector<std::vector<uint8_t>> cp;
+            for (int i = 0; i < n; i++) if (i != lost) { cp.push_back(s.s.frags[i]); cp.back().resize(slot_len, 0); }
+            std::vector<const std::vector<uint8_t> *> frs;
+            for (auto &x : cp) frs.push_back(&x);
+            {
+                FragSet fs; fs.build(frs, {});
+                ReconOut o = reconstruct(s.desc, fs, slot_len, lost);
+                if (o.rc > 0) fail_at(step, "positive rc");
+                if (o.rc == 0 && (o.out.size() < s.s.fraglen || memcmp(o.out.data(), s.s.frags[lost].data(), s.s.fraglen))) fail_at(step, "reconstruct with a padded fragment length returned rc 0 with a different fragment");
+                if (!fs.unchanged()) fail_at(step, "reconstruct modified an input");
+            }
+            {
+                FragSet fs; fs.build(frs, {});
+                DecodeOut d = decode(s.desc, fs, slot_len, (int)((b >> 3) & 1));
+                if (d.rc > 0) fail_at(step, "positive rc");
+                if (d.rc == 0 && d.out != s.s.data) fail_at(step, "decode with a padded fragment length returned rc 0 with wrong data");
+                if (!fs.unchanged()) fail_at(step, "decode modified an input");
+            }
+            w.failing_call = true;
+            break;
+        }
         case OP_MT_FIRST: {
             // several threads make the FIRST calls on a freshly created descriptor at the same time (lazily built
             // per-instance state must not be built twice and lost); the end-of-history leak check is the oracle
@@ -666,9 +707,9 @@ static Case gen_history(int mode) {
     int len = (int)pick(1, maxlen);
     if (coin(2, 3)) len = (int)pick(1, std::min(maxlen, 25));
     std::vector<int> wts;
-    if (mode == MODE_C14) wts = {8, 2, 5, 2, 4, 2, 1, 0, 0, 0, 0, 0, 1, 2, 0, 0, 2};
-    else if (mode == MODE_C15) wts = {5, 1, 2, 1, 6, 0, 0, 1, 1, 1, 3, 3, 3, 0, 0, 1, 1};
-    else wts = {6, 2, 4, 2, 5, 2, 0, 3, 3, 3, 2, 1, 3, 1, 3, 2, 2};
+    if (mode == MODE_C14) wts = {8, 2, 5, 2, 4, 2, 1, 0, 0, 0, 0, 0, 1, 2, 0, 0, 2, 2, 0};
+    else if (mode == MODE_C15) wts = {5, 1, 2, 1, 6, 0, 0, 1, 1, 1, 3, 3, 3, 0, 0, 1, 1, 1, 1};
+    else wts = {6, 2, 4, 2, 5, 2, 0, 3, 3, 3, 2, 1, 3, 1, 3, 2, 2, 2, 3};
     int tot = 0; for (int x : wts) tot += x;
     auto ops = *rc::gen::resize(len, rc::gen::container<std::vector<std::tuple<int, int, int>>>(
         rc::gen::tuple(rc::gen::resize(100, rc::gen::inRange(0, tot)), rc::gen::resize(100, rc::gen::inRange(0, 1 << 12)), rc::gen::resize(100, rc::gen::inRange(0, 1 << 12)))));
